@@ -34,10 +34,21 @@ def gen_data(rng: random.Random, big=False):
     if abs(off) > 1e7 * scale:
         off = 0.0
     kind = rng.choice(["uniform", "normal", "ints", "cluster", "literal", "skewed"])
-    if rng.random() < 0.02:
+    if rng.random() < 0.04:
         # values a few ulps apart: the range cannot be split into distinct edges
         x0 = off + scale
         d = [x0 + i * float(np.spacing(x0)) for i in range(rng.randint(2, 4))]
+        if rng.random() < 0.5:
+            # ... straddling a power of two, where the spacing of doubles changes
+            x0 = rng.choice([1.0, 1024.0, 2.0**-20, 8.0])
+            below = [x0]
+            for _ in range(rng.randint(1, 12)):
+                below.append(float(np.nextafter(below[-1], -np.inf)))
+            above = [x0]
+            for _ in range(rng.randint(1, 4)):
+                above.append(float(np.nextafter(above[-1], np.inf)))
+            d = sorted(set(below + above))
+            scale, off = x0, 0.0
         return np.array(d, dtype=float), scale, off, "ulps"
     if kind == "uniform":
         d = [off + scale * rng.random() for _ in range(n)]
@@ -352,6 +363,43 @@ def refusal_case(ctx, index, rng: random.Random):
     rec = ctx.rec
     rec.mon("C07.refusal")
     e = gen.edges(rng, rng.randint(2, 8))
+    if rng.random() < 0.25:
+        # specifications that are not edge arrays: falling / empty-width exponential parameters (also through from_dict), and
+        # selections of a binning that would put the bins out of order
+        which = rng.choice(["exp_negative", "exp_zero", "exp_dict", "reversed_slice", "reversed_part", "unordered_list"])
+        raised, made = False, None
+        try:
+            with warnings.catch_warnings():
+                warnings.simplefilter("ignore")
+                if which == "exp_negative":
+                    made = binnings.ExponentialBinning(0.0, -rng.choice([0.5, 1.0]), rng.randint(1, 5))
+                elif which == "exp_zero":
+                    made = binnings.ExponentialBinning(1.0, 0.0, rng.randint(1, 5))
+                elif which == "exp_dict":
+                    made = binnings.BinningBase.from_dict({"binning_type": "ExponentialBinning", "log_min": 0.0, "log_width": -1.0, "bin_count": 3})
+                else:
+                    cls_ = rng.choice(["static", "numpy", "fixed"])
+                    src = {"static": lambda: binnings.StaticBinning(np.array(gen.pairs_from_edges(e))), "numpy": lambda: binnings.NumpyBinning(np.array(e)),
+                           "fixed": lambda: binnings.FixedWidthBinning(bin_width=0.5, bin_count=len(e) - 1, min=1.0)}[cls_]()
+                    n_ = src.bin_count
+                    if which == "reversed_slice":
+                        made = src[::-1]
+                    elif which == "reversed_part":
+                        made = src[n_ - 1:0:-1] if n_ >= 3 else src[::-1]
+                    else:
+                        made = binnings.StaticBinning(np.array(gen.pairs_from_edges(e)))[[n_ - 1, 0]]
+                    which = f"{which}/{cls_}"
+                    # a selection that is answered must at least be a well-formed binning
+                    mb_ = np.asarray(made.bins, dtype=float)
+                    if mb_.ndim == 2 and (len(mb_) < 2 or (np.all(mb_[:, 0] < mb_[:, 1]) and np.all(mb_[1:, 0] >= mb_[:-1, 1]))):
+                        raised = True  # an ordered answer (e.g. a single bin) is not an unsorted specification
+        except Exception:
+            raised = True
+        if not raised:
+            rec.fail(monitor="C07.refusal", op=which, symptom="a falling / empty-width / out-of-order bin specification was accepted", diff=["not_refused"],
+                     detail={"which": which, "bins": None if made is None else np.asarray(made.bins).tolist()[:6]})
+        rec.case(["refusal2", which, e], True, cls=f"refusal/{which.split('/')[0]}")
+        return
     kind = rng.choice(["unsorted", "overlap", "zero_width", "shape3", "shape_n3", "reversed_pair", "duplicate_edge"])
     if kind == "unsorted":
         bad = list(e)
